@@ -7,6 +7,10 @@ Five kinds of cases:
   confocal  a real Kymo / Scan (builders_confocal), optional derivation (frame slice, pixel crop, time slice,
             crop_by_distance, flip, position down-sampling), export_tiff(dtype, clip), raw re-read, reopen with
             ImageStack, export again.                                  model ops: c18.cast, c18.roundtrip
+            Every case is exported three ways: by an untouched twin whose very first operation is export_tiff (nothing
+            has evaluated num_frames / shape / timestamps, so nothing reconstructed lazily is cached yet), by that twin
+            again, and by the instance that answered all queries first; every file must satisfy the same clauses.
+            The 'scan count' of the metadata record is 0 (not stored: reconstructed on demand) or the true count.
   mixin     TiffExport.export_tiff itself, fed by a minimal provider with arbitrary pixel values (negative,
             fractional, at and beyond every dtype limit) and arbitrary timestamp ranges.
                                                                        model ops: c18.cast, c18.encode, c18.roundtrip
@@ -72,7 +76,9 @@ RULE = (
     "each exported, re-read raw, reopened, exported again. confocal: kymographs and scans from generated info waves "
     "(both axis orders, 1-5 frames, dead time, lead-in) with photon counts below / at / above each dtype limit, all "
     "dtype x clip combinations, derived objects (frame slices, pixel crops incl. down to one pixel, time slices, "
-    "crop_by_distance, flip, position down-sampling with mean -> fractional values). mixin: export_tiff driven "
+    "crop_by_distance, flip, position down-sampling with mean -> fractional values); metadata 'scan count' 0 (not stored) or the true "
+    "count; every object exported by an untouched twin as its very first operation, by that twin again, and after all queries "
+    "(image, num_frames, frame ranges, pixel size) were answered - all files judged by the same clauses on every page. mixin: export_tiff driven "
     "directly with values from the boundary set of every dtype (negative, fractional, 255/256, 65535/65536, 2^24+-1, "
     "float32 max and beyond, subnormal, float32 ties) and timestamp ranges at 0, 1, 10^k, 2^63-1 and negative. datetime: "
     "strings from the grammar, with leading zeros, final newline, and malformed ones. Non-trivial: a stack export with a "
@@ -551,7 +557,7 @@ def impl_confocal(case):
     from lumicks.pylake import ImageStack
 
     obs = case["_obs"] = {}
-    p1, p2, p3 = fresh("c1"), fresh("c2"), fresh("c3")
+    p1, p2, p3, p0, p0b = fresh("c1"), fresh("c2"), fresh("c3"), fresh("c0"), fresh("c0b")
     try:
         with bc.quiet():
             try:
@@ -589,6 +595,20 @@ def impl_confocal(case):
             except Exception as e:
                 obs["query_error"] = "get_image() / timestamp ranges / pixel size of the (derived) object: " + repr(e)
                 return [errname(e), "not-written"]
+            # an untouched twin of the same object: export_tiff() is the FIRST thing ever asked of it (nothing has evaluated
+            # num_frames / shape / timestamps yet, so nothing lazily reconstructed is cached), then once more from the same
+            # object; the file must not depend on what was queried before
+            try:
+                twin = build_confocal(case)
+                for op in case["derive"]:
+                    twin = apply_derive(twin, op)
+                twin.export_tiff(p0, dtype=DT_NP[case["dtype"]], clip=case["clip"])
+                obs["raw0"] = read_raw(p0)
+                twin.export_tiff(p0b, dtype=DT_NP[case["dtype"]], clip=case["clip"])
+                obs["raw0b"] = read_raw(p0b)
+            except Exception as e:
+                obs["outcome0"] = errname(e)
+                obs["error0"] = repr(e)
             try:
                 obj.export_tiff(p1, dtype=DT_NP[case["dtype"]], clip=case["clip"])
             except Exception as e:
@@ -623,7 +643,7 @@ def impl_confocal(case):
                 a2 = errname(e)
             return [a1, a2]
     finally:
-        rm(p1, p2, p3)
+        rm(p1, p2, p3, p0, p0b)
 
 
 def ops_confocal(case):
@@ -659,28 +679,17 @@ def cast_reference(vals, dtype, clip):
     return [Fraction(math.floor(v)) for v in vals]  # in range => non-negative: truncation = floor
 
 
-def oracle_confocal(case, ia):
-    obs = case.get("_obs", {})
-    if "derive_error" in obs:
-        # deriving the object is the business of C06; only documented refusals are expected here
-        return None
-    if "query_error" in obs:
-        return f"object-unusable: {obs['query_error']}"
+def same_page(p, q):
+    return (p["dt"] == q["dt"] and json.loads(p["desc"]) == json.loads(q["desc"]) and p["img"].dtype == q["img"].dtype
+            and p["img"].shape == q["img"].shape and np.array_equal(p["img"], q["img"]) and p["software"] == q["software"]
+            and p["xres"] == q["xres"] and p["yres"] == q["yres"] and p["unit"] == q["unit"] and p["photometric"] == q["photometric"])
+
+
+def check_written(case, obs, raw1, want, ref_times):
+    """the property clauses on ONE written file (raw re-read `raw1`) of the (derived) object: pixels = cast image,
+    DateTime / exposure per page, scan metadata, calibration. Expectations come from the case and from the answers of
+    the queried instance (obs); the file may have been written by that instance or by an untouched twin."""
     img = obs["image"]
-    # (0) the un-derived image against the independent reconstruction from the info wave
-    ref_img, ref_times = reference_confocal(case)
-    ref_cmp = ref_img[0] if (case["kind"] == "kymo" or ref_img.shape[0] == 1) else ref_img
-    if ref_cmp.shape != obs["base_image"].shape or not np.array_equal(ref_cmp, obs["base_image"]):
-        return "source-image: get_image() of the generated object differs from the plain reconstruction (C02 territory)"
-    want = cast_reference(arr_rats(img), case["dtype"], case["clip"])
-    if want == "RuntimeError":
-        if ia[0] != "RuntimeError":
-            return f"cast-refusal: a value does not fit {case['dtype']} and clip=False, but export gave {ia[0][:80]}"
-        return None
-    if "raw1" not in obs:
-        return (f"export-refused: exporting a valid {case['kind']} (derive {case['derive']}, image shape {img.shape}) "
-                f"raised {ia[0]} at {obs.get('error_at')}: {obs.get('error')}")
-    raw1 = obs["raw1"]
     frames = img if img.ndim == 4 else img[None]
     if len(raw1) != frames.shape[0]:
         return f"frames: {len(raw1)} pages written for {frames.shape[0]} frames"
@@ -710,33 +719,79 @@ def oracle_confocal(case, ia):
         for i, (a, b, c) in enumerate(ref_times):
             if (dead[i][0], exp[i][1]) != (a, b) or (c is not None and dead[i][1] != c):
                 return f"timestamps: frame {i} is {dead[i]} / {exp[i]}, the info wave gives start {a}, exposure end {b}, next start {c}"
-    # metadata
-    d = json.loads(raw1[0]["desc"])
+    # metadata: every page carries the scan metadata
     lay = case["layout"]
     axes = [(case.get("fast", 0), lay["P"], case["pixel_nm"][0])]
     if case["kind"] == "scan":
         axes.append((case["slow"], lay["L"], case["pixel_nm"][1]))
     want_axes = [{"Axis": a, "Label": "xyz"[a], "Number of pixels": n, "Pixel size (um)": nm / 1000} for a, n, nm in axes]
-    if d.get("Scan axes") != want_axes:
-        return f"metadata: scan axes {d.get('Scan axes')} != {want_axes}"
-    if d.get("Camera") != ("ConfocalKymo" if case["kind"] == "kymo" else "ConfocalScan") or d.get("Fast axis") != "xyz"[axes[0][0]]:
-        return f"metadata: camera/fast axis {d.get('Camera')}/{d.get('Fast axis')}"
-    if case["kind"] == "scan" and d.get("Number of frames") != frames.shape[0]:
-        return f"metadata: Number of frames {d.get('Number of frames')} != {frames.shape[0]}"
-    if case["kind"] == "kymo":
-        if d.get("Start pixel timestamp (ns)") != exp[0][0] or d.get("Stop pixel timestamp (ns)") != exp[0][1]:
-            return "metadata: start/stop pixel timestamps differ from the line ranges"
-    if not case["derive"]:
-        k = lay["k"]
-        if not math.isclose(d.get("Pixel time (s)") or 0.0, k * case["dt"] * 1e-9, rel_tol=1e-9):
-            return f"metadata: pixel time {d.get('Pixel time (s)')} != {k * case['dt'] * 1e-9}"
+    if case["kind"] == "scan" and obs["kind_frames"] != frames.shape[0]:
+        return f"metadata: the object reports num_frames {obs['kind_frames']}, its image has {frames.shape[0]} frames"
+    for i, p in enumerate(raw1):
+        d = json.loads(p["desc"])
+        if d.get("Scan axes") != want_axes:
+            return f"metadata: scan axes {d.get('Scan axes')} != {want_axes} (page {i})"
+        if d.get("Camera") != ("ConfocalKymo" if case["kind"] == "kymo" else "ConfocalScan") or d.get("Fast axis") != "xyz"[axes[0][0]]:
+            return f"metadata: camera/fast axis {d.get('Camera')}/{d.get('Fast axis')} (page {i})"
+        if case["kind"] == "scan" and d.get("Number of frames") != frames.shape[0]:
+            return f"metadata: Number of frames {d.get('Number of frames')} != {frames.shape[0]} (page {i}; {len(raw1)} pages written, metadata scan count {case.get('scan_count', 0)})"
+        if case["kind"] == "kymo":
+            if d.get("Start pixel timestamp (ns)") != exp[0][0] or d.get("Stop pixel timestamp (ns)") != exp[0][1]:
+                return "metadata: start/stop pixel timestamps differ from the line ranges"
+        if not case["derive"]:
+            k = lay["k"]
+            if not math.isclose(d.get("Pixel time (s)") or 0.0, k * case["dt"] * 1e-9, rel_tol=1e-9):
+                return f"metadata: pixel time {d.get('Pixel time (s)')} != {k * case['dt'] * 1e-9} (page {i})"
     px = obs["pixelsize_um"]
     pxx, pxy = px[0], (px[1] if len(px) == 2 else px[0])
-    xr, yr = raw1[0]["xres"], raw1[0]["yres"]
-    if xr is None or yr is None or raw1[0]["unit"] != 3:
-        return "calibration: resolution tags missing"
-    if not math.isclose(xr[0] / xr[1], 1e4 / pxx, rel_tol=1e-6) or not math.isclose(yr[0] / yr[1], 1e4 / pxy, rel_tol=1e-6):
-        return f"calibration: resolution {xr}/{yr} does not match pixel size {px} um"
+    for i, p in enumerate(raw1):
+        xr, yr = p["xres"], p["yres"]
+        if xr is None or yr is None or p["unit"] != 3:
+            return f"calibration: resolution tags missing (page {i})"
+        if not math.isclose(xr[0] / xr[1], 1e4 / pxx, rel_tol=1e-6) or not math.isclose(yr[0] / yr[1], 1e4 / pxy, rel_tol=1e-6):
+            return f"calibration: resolution {xr}/{yr} does not match pixel size {px} um (page {i})"
+    return None
+
+
+FIRST = " [export_tiff() as the first operation on a freshly built object]"
+
+
+def oracle_confocal(case, ia):
+    obs = case.get("_obs", {})
+    if "derive_error" in obs:
+        # deriving the object is the business of C06; only documented refusals are expected here
+        return None
+    if "query_error" in obs:
+        return f"object-unusable: {obs['query_error']}"
+    img = obs["image"]
+    # (0) the un-derived image against the independent reconstruction from the info wave
+    ref_img, ref_times = reference_confocal(case)
+    ref_cmp = ref_img[0] if (case["kind"] == "kymo" or ref_img.shape[0] == 1) else ref_img
+    if ref_cmp.shape != obs["base_image"].shape or not np.array_equal(ref_cmp, obs["base_image"]):
+        return "source-image: get_image() of the generated object differs from the plain reconstruction (C02 territory)"
+    want = cast_reference(arr_rats(img), case["dtype"], case["clip"])
+    if want == "RuntimeError":
+        if ia[0] != "RuntimeError":
+            return f"cast-refusal: a value does not fit {case['dtype']} and clip=False, but export gave {ia[0][:80]}"
+        if obs.get("outcome0") != "RuntimeError":
+            return f"cast-refusal: a value does not fit {case['dtype']} and clip=False, but export gave {obs.get('outcome0', 'a file')}" + FIRST
+        return None
+    if "raw1" not in obs:
+        return (f"export-refused: exporting a valid {case['kind']} (derive {case['derive']}, image shape {img.shape}) "
+                f"raised {ia[0]} at {obs.get('error_at')}: {obs.get('error')}")
+    raw1 = obs["raw1"]
+    bad = check_written(case, obs, raw1, want, ref_times)
+    if bad:
+        return bad
+    # the same clauses on the file written by an untouched twin (export first, queries never), and written again by it
+    if "raw0" not in obs or "raw0b" not in obs:
+        return f"export-refused: the queried object exports fine, but export raised {obs.get('error0')}" + FIRST
+    bad = check_written(case, obs, obs["raw0"], want, ref_times)
+    if bad:
+        return bad + FIRST
+    if len(obs["raw0b"]) != len(obs["raw0"]) or not all(same_page(p, q) for p, q in zip(obs["raw0"], obs["raw0b"])):
+        return "repeat-export: exporting the same object twice in a row wrote two different files"
+    dead, exp = obs["dead"], obs["exp"]
     # reopened
     if "re_image" not in obs:
         return f"reopen: ImageStack could not read the exported file: {obs.get('error2')}"
@@ -1030,8 +1085,10 @@ def det_counts(n, hi, salt=0):
     return [((i * 7 + 3 + salt) % 5) * hi // 4 + (1 if i % 3 == 0 else 0) for i in range(n)]
 
 
-def confocal_case(kind, P, L, frames_or_lines, k, lead, dead, frame_dead, fast, slow, level, dtype, clip, derive=(), dt=12800, salt=0, absent=("blue",), pixel_nm=(100.0, 150.0)):
-    """`level`: magnitude of the photon counts per sample (chosen against the dtype limits)"""
+def confocal_case(kind, P, L, frames_or_lines, k, lead, dead, frame_dead, fast, slow, level, dtype, clip, derive=(), dt=12800, salt=0, absent=("blue",), pixel_nm=(100.0, 150.0), scan_count=0):
+    """`level`: magnitude of the photon counts per sample (chosen against the dtype limits); `scan_count`: the 'scan count'
+    field of the metadata record: 0 = not stored (pylake reconstructs the number of frames from the info wave on demand),
+    "stored" = the true number of frames"""
     if kind == "kymo":
         lay = {"P": P, "lines": frames_or_lines, "k": k, "lead_in": lead, "dead": dead}
     else:
@@ -1041,7 +1098,8 @@ def confocal_case(kind, P, L, frames_or_lines, k, lead, dead, frame_dead, fast, 
     for ci, col in enumerate(bc.COLORS):
         ch[col] = None if col in absent else det_counts(n, level if ci == 0 else max(level // 3, 1), salt + ci)
     return {"kind": kind, "layout": lay, "channels": ch, "fast": fast, "slow": slow, "pixel_nm": list(pixel_nm), "dt": dt,
-            "dtype": dtype, "clip": clip, "derive": [list(d) for d in derive], "scan_count": 0}
+            "dtype": dtype, "clip": clip, "derive": [list(d) for d in derive],
+            "scan_count": frames_or_lines if (scan_count == "stored" and kind == "scan") else 0}
 
 
 BOUNDARY_VALUES = {
@@ -1267,6 +1325,13 @@ def cases(tier, rng):
                     [["cropxy", None, None, 1, None]], [["cropxy", None, -1, None, -1]], [["tuple", 1, 3, None, None, 1, None]],
                     [["tuple", None, None, 0, 1, None, None]], [["tuple", None, None, None, None, 0, 1]], [["cropxy", 0, 1, None, None]],
                     [["cropxy", None, None, 0, 1]], [["frame", 0], ["cropxy", 1, None, None, None]], [["frames", 0, 2], ["frames", 1, None]]]
+    # the frame count of the metadata record: not stored (0, reconstructed lazily) / stored, 1 and several frames, both orders
+    for fast, slow in ((0, 1), (1, 0)):
+        for nf in (1, 2, 5):
+            for sc in (0, "stored"):
+                yield dict(confocal_case("scan", 2, 2, nf, 1, 1, 1, 1, fast, slow, 40, "u8", False, scan_count=sc, salt=nf), stream="small-scope")
+        for d in ([["cropxy", 1, None, None, None]], [["frames", 1, None]], [["frame", 0]]):
+            yield dict(confocal_case("scan", 3, 2, 3, 1, 1, 1, 2, fast, slow, 50, "u16", False, derive=d, scan_count="stored"), stream="small-scope")
     for fast, slow in ((0, 1), (1, 0)):
         for d in scan_derives:
             yield dict(confocal_case("scan", 3, 2, 3, 1, 1, 1, 2, fast, slow, 50, "f32", False, derive=d), stream="small-scope")
@@ -1322,6 +1387,8 @@ def cases(tier, rng):
             ders = [[], [], [["frames", b(frames), b(frames)]], [["frame", sub.randint(-frames, frames - 1)]],
                     [["cropxy", b(4), b(4), b(4), b(4)]], [["tuple", b(frames), b(frames), b(4), b(4), b(4), b(4)]]]
             c["derive"] = sub.choice(ders)
+            if sub.chance(0.3):
+                c["scan_count"] = frames  # the metadata record stores the true count (otherwise 0: reconstructed on demand)
         yield dict(c, stream="random", subseed=i)
     r = rng.fork("c18-random-mixin")
     N = 500 if quick else 10000
